@@ -1,7 +1,8 @@
 """C05 — the interior operator is symmetric (positive definiteness is numerical and not decided).
 
 R-C05-1: A[p,q] == A[q,p] for all non-Dirichlet nodes p,q, for the give and the take residual operator.
-R-C05-3: every diagonal entry of a non-Dirichlet row is positive at the test points for positive spacings/coefficients
+R-C05-3: every diagonal entry of a non-Dirichlet row is positive at the test points for positive spacings/coefficients,
+         also with beta == 0 (the stiffness part alone), for take and for give under all four cache-flag combinations
          (necessary for definiteness; decided on the exact tables, not on floating-point output).
 (The symmetry of the smoothers' line blocks before one-sided storage, R-C05-2, is checked with C06.)
 """
@@ -51,12 +52,25 @@ def main(tier):
                 ck.ok("R-C05-1", key, sample={"operator": cls, "shape": sk, "off-diagonal pairs compared": npairs})
             ck.instance("R-C05-3", key)
             neg = None
-            for p, row in A.items():
-                if S.dirichlet(p):
-                    continue
-                d = row.get(p)
-                if d is None or dag.sign_at_points(d) != {1}:
-                    neg = (S.rt(p), dag.show(d, 120) if d is not None else None)
+            variants = [("", A)]
+            if cls == "ResidualGive":
+                # the give operator exists under every cache-flag combination; definiteness is claimed for all of them
+                for fl in ((True, False), (False, True), (False, False)):
+                    variants.append((" caches=(%s,%s)" % fl, S.residual(cls, S.cache(*fl))[0]))
+            for vname, Av in variants:
+                for p, row in Av.items():
+                    if S.dirichlet(p):
+                        continue
+                    d = row.get(p)
+                    if d is None or dag.sign_at_points(d) != {1}:
+                        neg = (S.rt(p), (dag.show(d, 120) if d is not None else None) + vname)
+                        break
+                    # beta >= 0 includes beta == 0 (Poisson-type profiles): the stiffness part alone must keep the diagonal positive
+                    d0 = dag.subst(d, {}, funcs={"coefficients.beta": lambda args: dag.ZERO})
+                    if dag.sign_at_points(d0) != {1}:
+                        neg = (S.rt(p), "with beta == 0 the diagonal is %s%s" % (dag.show(d0, 100), vname))
+                        break
+                if neg:
                     break
             if neg:
                 ck.violation("R-C05-3", "%s:diagonal" % cls, site, "%s: diagonal entry of row %s is %s, not positive" % (key, neg[0], neg[1]))
